@@ -64,10 +64,44 @@ Proof.
       now rewrite ?app_nil_r, app_assoc.
 Qed.
 
-(* node kinds printed by concatenating the documents of the children (unary: plus a blank before a signed operand) *)
+Lemma dwords_space : dwords space = [].
+Proof. reflexivity. Qed.
+
+Lemma dwords_intersperse_fold : forall ds acc,
+  dwords (fold_left (fun a x => cat (cat a space) x) ds acc) = dwords acc ++ flat_map dwords ds.
+Proof.
+  induction ds as [|d ds IH]; intros acc; cbn [fold_left flat_map].
+  - now rewrite app_nil_r.
+  - rewrite IH, !dwords_cat, dwords_space, app_nil_r. now rewrite app_assoc.
+Qed.
+
+Lemma dwords_intersperse_space : forall ds, dwords (intersperse ds space) = flat_map dwords ds.
+Proof.
+  intros [|d ds]; [reflexivity|]. unfold intersperse.
+  rewrite dwords_intersperse_fold, dwords_cat. reflexivity.
+Qed.
+
+Lemma dwords_arm_list : forall cs ds prev acc, length cs = length ds ->
+  dwords (print_arm_list prev cs ds acc) = dwords acc ++ flat_map dwords ds.
+Proof.
+  induction cs as [|c cs IH]; intros ds prev acc H; destruct ds as [|d ds]; try discriminate H.
+  - cbn. now rewrite app_nil_r.
+  - cbn [print_arm_list flat_map]. rewrite IH by (now inversion H).
+    rewrite !dwords_cat.
+    assert (E : dwords (match prev with
+                        | None => Nil
+                        | Some p => if is_node p && opens_paren c then HardLine else space
+                        end) = []).
+    { destruct prev as [p|]; [destruct (is_node p && opens_paren c)|]; reflexivity. }
+    rewrite E, app_nil_r. now rewrite app_assoc.
+Qed.
+
+(* node kinds printed by concatenating the documents of the children, possibly with blanks / forced breaks between them
+   (unary: a blank before a signed operand; match expressions, arms, patterns, type declarations, variants: a blank between
+   the children; arm lists: a blank or a forced break) *)
 Definition concat_kind (k : skind) : bool :=
   match k with
-  | SStatement | SUnaryExpr | SCallExpr | SParenExpr | SLeaf _ | SOutside => true
+  | SStatement | SUnaryExpr | SCallExpr | SParenExpr | SLeaf _ | SSpaced | SMatchArmList | SOutside => true
   | _ => false
   end.
 
@@ -89,8 +123,24 @@ Proof.
       cbn [map flat_map]. rewrite (IH x Hx), (IHcs Hr). reflexivity. }
     cbn [cst_words]. rewrite <- E.
     destruct k; try discriminate Hk; cbn [doc_of]; rewrite ?dwords_group;
-      try apply dwords_dconcat.
-    unfold print_unary_expr. rewrite dwords_unary_scan; [reflexivity|now rewrite map_length].
+      try apply dwords_dconcat; try apply dwords_intersperse_space.
+    + unfold print_unary_expr. rewrite dwords_unary_scan; [reflexivity|now rewrite map_length].
+    + rewrite dwords_arm_list; [reflexivity|now rewrite map_length].
+Qed.
+
+(* compositional form: a node of a concatenating kind emits everything as soon as its children do (the children may be
+   nodes with a printing state machine whose emits_all is decided by computation) *)
+Lemma emits_all_node : forall ind k cs,
+  concat_kind k = true -> Forall (emits_all ind) cs -> emits_all ind (Node k cs).
+Proof.
+  intros ind k cs Hk Hcs. unfold emits_all in *.
+  assert (E : flat_map dwords (map (doc_of ind) cs) = flat_map cst_words cs).
+  { induction Hcs as [|x cs Hx _ IHcs]; [reflexivity|]. cbn [map flat_map]. now rewrite Hx, IHcs. }
+  cbn [cst_words]. rewrite <- E.
+  destruct k; try discriminate Hk; cbn [doc_of]; rewrite ?dwords_group;
+    try apply dwords_dconcat; try apply dwords_intersperse_space.
+  - unfold print_unary_expr. rewrite dwords_unary_scan; [reflexivity|now rewrite map_length].
+  - rewrite dwords_arm_list; [reflexivity|now rewrite map_length].
 Qed.
 
 (* "-a.b /* c */" *)
